@@ -104,14 +104,33 @@ def run(facts, rep):
                         rl = root_local(t0) if t0 is not None else None
                         if rl and rl[0] in bufs:
                             bufs.add(x["pat"]["lid"])
+        # elements / chunks of the buffer bound by a `for` pattern are the buffer
+        from facts import pat_bindings
+        for _ in range(2):
+            for x in walk(body):
+                if x.get("k") == "For" and any((root_local(y) or (None,))[0] in bufs for y in walk(x["iter"])
+                                               if y.get("k") in ("Path", "MCall", "Index", "Ref")):
+                    for l, _nm in pat_bindings(x["pat"]):
+                        # only bindings whose type is a slice / element of the buffer
+                        bufs.add(l)
         n += 1
         key = "pipeline/" + sc
         if buf is None:
             rep.violation(R, key, "invariant_noise_budget no longer computes the phase with dot_product_ct_sk_array into a local "
                           "buffer", facts.loc(p))
             continue
+        OPERAND_FORMS = ("multiply_operand_inplace", "multiply_operand_inplace_p", "multiply_operand_inplace_ps")
         seq = [(nm, x) for nm, x in _calls_on(body, bufs, dead) if nm in
-               ("dot_product_ct_sk_array", "multiply_scalar_inplace_p", "multiply_scalar_inplace_ps", "compose_array", "poly_infty_norm")]
+               ("dot_product_ct_sk_array", "multiply_scalar_inplace_p", "multiply_scalar_inplace_ps", "compose_array", "poly_infty_norm")
+               + OPERAND_FORMS]
+        # the scaling by t written with a precomputed per-prime operand is the same stage (its operand is judged below)
+        operand_step = [x for nm, x in seq if nm in OPERAND_FORMS]
+        seq = [("multiply_scalar_inplace_p" if nm in OPERAND_FORMS else nm, x) for nm, x in seq]
+        dedup = []
+        for nm, x in seq:
+            if not (dedup and dedup[-1][0] == nm == "multiply_scalar_inplace_p" and operand_step):
+                dedup.append((nm, x))
+        seq = dedup
         names = [nm for nm, _ in seq]
         want = ["dot_product_ct_sk_array"] + (["multiply_scalar_inplace_p"] if sc == "BFV" else []) + ["compose_array", "poly_infty_norm"]
         ok = names == want
@@ -120,6 +139,20 @@ def run(facts, rep):
             m = seq[1][1]
             ok = any(y.get("k") == "MCall" and y.get("name") == "plain_modulus" for a in m["args"] for y in defs.closure(a))
             detail = "" if ok else "the BFV scaling factor is not plain_modulus.value()"
+            if ok and operand_step:
+                # MultiplyU64ModOperand::new(t, q_i) is exact only for t < q_i: the operand must be a residue modulo q_i
+                import r_residue
+                cl = r_residue.Classifier(facts)
+                news = [y for a in m["args"] for y in defs.closure(a) if y.get("k") == "Call" and
+                        (callee(y) or {}).get("name") == "new" and "MultiplyU64ModOperand" in (callee(y) or {}).get("def", "")]
+                cls = [cl.classify(p, y["args"][0]) for y in news if y.get("args")]
+                if not cls or any(c is None or c[0] not in ("red", "any") for c in cls):
+                    rep.unresolved(R, key + "/operand", "the per-prime operand of the scaling by t is not classified", facts.loc(p, m))
+                elif any(c[0] == "any" for c in cls):
+                    ok = False
+                    detail = ("the scaling by t uses a precomputed operand built from an unreduced value (%s): the operand's quotient "
+                              "is exact only below the prime, so for parameter sets with t >= q_i that residue of the phase is wrong" %
+                              [c for c in cls if c[0] == "any"][0][1])
         if ok:
             nrm = seq[-1][1]
             ok = any(y.get("k") == "MCall" and y.get("name") == "total_coeff_modulus" for a in nrm["args"] for y in defs.closure(a))
@@ -127,8 +160,9 @@ def run(facts, rep):
         if ok:
             rep.ok(R, key, "%s: %s" % (sc, " -> ".join(names)), facts.loc(p, seq[0][1]), sample={"scheme": sc, "stages": names})
         else:
-            rep.violation(R, key, "under %s the phase buffer goes through [%s] instead of [%s]%s: the number reported is not the "
-                          "budget of the definition" % (sc, ", ".join(names), ", ".join(want), ("; " + detail) if detail else ""),
+            rep.violation(R, key, ("under %s the phase buffer goes through [%s] instead of [%s]%s: the number reported is not the "
+                          "budget of the definition" % (sc, ", ".join(names), ", ".join(want), ("; " + detail) if detail else ""))
+                          if names != want else ("under %s %s: the number reported is not the budget of the definition" % (sc, detail)),
                           facts.loc(p, seq[0][1]) if seq else facts.loc(p))
     # ---------------- formula
     body = facts.hir[p]
